@@ -11,3 +11,55 @@ def run(ctx: Ctx) -> None:
     ctx.floor("T18.interop-read", 12)
     ctx.floor("T18.image-api", 8)
     ctx.floor("T18.flow-api", 12)
+
+
+def mutants(prog):
+    from .common import source_sub
+    M, N, S, T, I, DI, DF = ("deepali.utils.imageio.meta", "deepali.utils.imageio.nifti", "deepali.utils.imageio.sitk",
+                             "deepali.utils.simpleitk.torch", "deepali.utils.imageio", "deepali.data.image", "deepali.data.flow")
+    specs = [
+        ("meta: writer does not transpose direction", M, "meta_image_bytes", "' '.join((str(x) for x in np.ravel(np.transpose(value))))", "' '.join((str(x) for x in np.ravel(value)))", "T18."),
+        ("meta: reader does not transpose direction", M, "read_meta_image_from_fileobj", ".reshape(ndims, ndims).transpose()", ".reshape(ndims, ndims)", "T18."),
+        ("meta: DimSize order", M, "meta_image_bytes", "size = np.array(data.shape[::-1])", "size = np.array(data.shape)", "T18."),
+        ("meta: channel axis not moved on write", M, "write_meta_image", "data = data.unsqueeze(-1).transpose_(0, -1)", "data = data.unsqueeze(-1)", "T18."),
+        ("meta: channel axis not moved on read", M, "read_meta_image", "data = np.squeeze(np.swapaxes(np.expand_dims(data, 0), 0, -1), -1)", "data = np.expand_dims(data, 0)", "T18."),
+        ("meta: origin written as center", M, "write_meta_image", "'Offset': grid.origin().cpu().numpy()", "'Offset': grid.center().cpu().numpy()", "T18."),
+        ("meta: reader prefers TransformMatrix for origin", M, "read_meta_image", "origin = meta.get('Position', meta.get('Origin', meta.get('Offset')))", "origin = meta.get('Position', meta.get('Origin'))", "T18."),
+        ("meta: short/ushort swapped", M, None, None, None, "T18.interop"),
+        ("meta: compressed size off", M, "meta_image_bytes", "meta['CompressedDataSize'] = len(blob)", "meta['CompressedDataSize'] = len(blob) + 1", "T18."),
+        ("meta: uint16 not widened", M, "read_meta_image", "if data.dtype == np.uint16:\n        data = data.astype(np.int32)", "if False:\n        data = data.astype(np.int32)", "SKIP"),
+        ("nifti: writer flips columns", N, "write_nifti_image", "affine[:2] *= -1", "affine[:, :2] *= -1", "T18."),
+        ("nifti: reader flips columns", N, "read_nifti_image", "direction[:2] *= -1", "direction[:, :2] *= -1", "T18."),
+        ("nifti: reader origin not flipped", N, "read_nifti_image", "origin[:2] *= -1", "origin[:2] *= 1", "T18."),
+        ("nifti: writer drops origin", N, "write_nifti_image", "affine[:D, 3] = grid.origin().cpu().numpy()", "affine[:D, 3] = 0", "T18."),
+        ("nifti: axes not reversed on write", N, "write_nifti_image", "dataobj = np.transpose(data.numpy(), axes=tuple(reversed(range(data.ndim))))", "dataobj = data.numpy()", "T18."),
+        ("nifti: spacing not divided out", N, "read_nifti_image", "direction = np.divide(affine[:D, :D], spacing)", "direction = affine[:D, :D]", "T18."),
+        ("nifti: vector components slice", N, "read_nifti_image", "data.shape[:realdim] + data.shape[4:]", "data.shape[:realdim] + data.shape[5:]", "T18."),
+        ("sitk: direction transposed on write", S, "write_sitk_image", "direction = grid.direction().flatten().tolist()", "direction = grid.direction().t().flatten().tolist()", "T18."),
+        ("sitk: origin is center", S, "write_sitk_image", "origin = grid.origin().tolist()", "origin = grid.center().tolist()", "T18."),
+        ("sitk: vector flag", T, "image_from_tensor", "isVector=nchannels > 1", "isVector=False", "T18."),
+        ("sitk: channel axis on read", T, "tensor_from_image", "data = data.transpose(0, -1).squeeze(-1)", "data = data.squeeze(0).unsqueeze(0)", "T18."),
+        ("sitk: channel axis on write", T, "image_from_tensor", "data = data.unsqueeze(-1).transpose(0, -1).squeeze(0)", "data = data.unsqueeze(-1).squeeze(-1)", "T18."),
+        ("dispatch: nifti written as meta", I, "write_image", "return write_nifti_image(data, grid, path)", "return write_sitk_image_missing(data, grid, path)", "SKIP"),
+        ("Image.read ignores align_corners", DI, "Image.read", "grid = grid.align_corners_(align_corners)", "grid = grid", "T18.image-api"),
+        ("Image.sitk direction transposed", DI, "Image.sitk", "direction = grid.direction().flatten().tolist()", "direction = grid.direction().t().flatten().tolist()", "T18.image-api"),
+        ("FlowField.write keeps axes", DF, "FlowField.write", "disp = disp.axes(axes or Axes.WORLD)", "disp = disp", "T18.flow-api"),
+        ("FlowField.read labels cube", DF, "FlowField.read", "return cls.from_image(image, axes=axes or Axes.WORLD)", "return cls.from_image(image, axes=axes)", "T18.flow-api"),
+        ("FlowField.sitk keeps axes", DF, "FlowField.sitk", "disp = disp.axes(axes or Axes.WORLD)", "disp = disp", "T18.flow-api"),
+    ]
+    for name, mod, fn, old, new, expect in specs:
+        if expect == "SKIP":
+            continue
+        if fn is None:
+            # module-level table edit: swap two entries of META_IMAGE_TYPES
+            mi = prog.module(mod)
+            src = mi.source
+            a, b = '"MET_SHORT": np.int16', '"MET_USHORT": np.uint16'
+            if a in src and b in src:
+                ov = {mi.relpath: src.replace(a, '"MET_SHORT": np.uint16').replace(b, '"MET_USHORT": np.int16')}
+            else:
+                ov = None
+            yield (name if ov is not None else name + " [spec does not apply]", ov, expect)
+            continue
+        ov = source_sub(prog, mod, fn, old, new)
+        yield (name if ov is not None else name + " [spec does not apply]", ov, expect)
